@@ -213,6 +213,56 @@ def run_chef(mods, ref, cfg, serial, ctx, canary=False, free_T_cell=None, prior=
     return obl
 
 
+def shifted_positions(mods, ref, ctx, shifted):
+    """Chef(user one-field recipe, kept density, serial).cook() with the object's `knife` wrapped: the byte positions it returns (where it
+    wrote each box header) are moved up by one symbolic base, 0 <= base <= 2^40.  Returns (base, [(file, offset term)] as the written level
+    headers list them)."""
+    chefmod = mods['amr_kitchen.chef.chef']
+    fs = SymFS()
+    ref.write_symfs(fs, '/work/plt')
+    B = 0
+    if shifted:
+        B = core.integer('filebase')
+        ctx.assume(B.t >= 0)
+        ctx.assume(B.t <= 2 ** 40)
+    with patch.Patched(mods, fs, stubs={'amr_kitchen.chef.chef': {'ct': ctstub}}), common.quiet():
+        ch = chefmod.Chef(plotfile='plt', recipe=os.path.join(RECIPES, 'r_single.py'), outfile='out', serial=True, kept_fields='density')
+        if callable(getattr(ch, 'recipe', None)) and hasattr(ch.recipe, '__globals__'):
+            ch.recipe.__globals__['np'] = npfacade.facade
+        real = ch.knife
+
+        def knife(args):
+            r = real(args)
+            return ([o + B for o in r[0]],) + tuple(r[1:])
+        ch.knife = knife
+        ch.cook()
+    out = []
+    for l in range(ref.nlev):
+        for line in fs.lookup('/work/out/%s%d/Cell_H' % (ref.level_prefix, l)).s.split('\n'):
+            if line.startswith('FabOnDisk:'):
+                tok = line.split()[-1]
+                p = core.parse_token(tok)
+                out.append((line.split()[1], p[0] if p else int(tok)))
+    return B, out
+
+
+def big_replay():
+    """One sparse single-level plotfile (17 boxes of 256 x 256 x 128 cells, fields density and a) cooked with the one-field user recipe and
+    density kept: the output's binary file passes 2^31 bytes at its 17th box; every listed offset must hold that box's header."""
+    from harness import c06
+    r = c06.BIG_REPLAY
+    for a, b in [('from amr_kitchen.combine.combine import combine', 'from amr_kitchen.chef.chef import Chef'),
+                 ('NX, NY, NZ, NB = 256, 256, 64, 17', 'NX, NY, NZ, NB = 256, 256, 128, 17'),
+                 ('write(os.path.join(top, "a"), ["u", "v"])', 'write(os.path.join(top, "a"), ["density", "a"])'),
+                 ('    write(os.path.join(top, "b"), ["w", "x"])\n', ''),
+                 ('combine(PlotfileCooker(os.path.join(top, "a")), PlotfileCooker(os.path.join(top, "b")), pltout=os.path.join(top, "out"))',
+                  'Chef(plotfile=os.path.join(top, "a"), recipe=%r, outfile=os.path.join(top, "out"), serial=True, kept_fields="density").cook()' % os.path.join(RECIPES, 'r_single.py')),
+                 ('hdr(i, 4)', 'hdr(i, 2)')]:
+        assert a in r, a
+        r = r.replace(a, b)
+    return r
+
+
 def c11_meshes():
     M = []
     M.append(Mesh('1box-2x2x1', 3, (2, 2, 1), [tile((0, 0, 0), (1, 1, 0), [[], [], []])]))
@@ -341,6 +391,26 @@ def run_case(case):
                 sig = 'C11/kept-field-cleaned' if cfgf is cfgk else 'C11/recipe-input-cleaned'
                 viol.setdefault(sig, {'signature': sig, 'what': obl.failed[0][0][:400], 'cfg': cfgf, 'serial': True, 'model': obl.failed[0][1] or ctx.model(), 'free': True})
 
+    # the magnitude of byte positions: the knife's results moved up by a symbolic base (up to 2^40) must reach the level headers unchanged
+    def opath(ctx):
+        obl = Obl(ctx)
+        try:
+            _, base = shifted_positions(mods, ref, ctx, False)
+            B, got = shifted_positions(mods, ref, ctx, True)
+        except Exception as e:
+            obl.fail('Chef.cook() with box positions beyond a base of up to 2^40 bytes raised %s: %s' % (type(e).__name__, str(e)[:120]))
+            return obl
+        obl.holds(len(base) == len(got) and len(got) > 0, 'cook() with shifted box positions lists %d boxes, %d without the shift' % (len(got), len(base)))
+        for (f0, o0), (f1, o1) in zip(base, got):
+            obl.equal(o1, o0 + B, 'Chef.cook() with every box position of a file moved up by base (0 <= base <= 2^40): offset of a box in %s as listed in the level header' % f0)
+        return obl
+    results, exhaustive, stats = core.explore(opath, max_paths=8)
+    res.add_explore(results, exhaustive, stats)
+    for ctx, obl in results:
+        res.add_obl(obl)
+        if obl.failed and not ctx.flags:
+            viol.setdefault('C11/offset-magnitude', {'signature': 'C11/offset-magnitude', 'what': obl.failed[0][0][:400], 'big': True})
+
     def canary(ctx):
         return run_chef(mods, ref, CONFIGS[1], True, ctx, canary=True)
     cres, _, _ = core.explore(canary, max_paths=4)
@@ -352,7 +422,12 @@ def run_case(case):
     for sig, v in viol.items():
         if not common.claim('C11', sig):
             continue
-        d, status, out = common.replay_portfolio(lambda: make_replay(ref, v))
+        if v.get('big'):
+            # replayed where conversions of positions differ: beyond 2^31 bytes (~2.2 GB scratch, removed by the replay itself)
+            from harness import replay_lib
+            d, status, out = common.replay_portfolio(lambda: replay_lib.make_tool_replay('C11', sig, v['what'], {}, big_replay(), {'kind': 'value', 'close': 1.0}))
+        else:
+            d, status, out = common.replay_portfolio(lambda: make_replay(ref, v))
         v2 = {'signature': sig, 'what': v['what'], 'replay': d}
         if status == 'reproduced':
             res['violations'].append(v2)
